@@ -11,7 +11,7 @@ SCHEDULE_DEPENDENT = True
 RULE = ('two real ActiveObjects, the real fabric; the first has 0-3 timed sources (some armed by its own handlers during a step) and 0-3 concurrent posters; stop() is '
         'called on it from a client at an arbitrary instant (idle object, mid-step, queue non-empty, the very instant a timer '
         'wakes: the scheduler decides, down to single bytecodes of stop, run_event and the timer\'s run-flag check) or from one '
-        'of its own handlers (third stratum: the handler\'s step goes on to arm a source, or a client arms one on the ended object, and a client calls stop() later: that call must silence them); afterwards the client posts a probe event to the second object and publishes a probe it '
+        'of its own handlers (third stratum: the handler\'s step goes on to arm a source, or a client arms one on the ended object, and a client calls stop() later: that call must silence them; fourth stratum: the stop() comes from a handler of another active object - in half of the runs one with the same name - while the stopped object is in the middle of a slow step that may go on to arm a source); afterwards the client posts a probe event to the second object and publishes a probe it '
         'subscribed to. Oracle: stop() returns (deadlock detection); after an external stop() returned the object\'s thread has '
         'ended, no further step of that object runs, none of its timer threads puts anything into its queue; the second '
         'object still dispatches the probe and the fabric still delivers the probe publication; after stop() inside a handler '
@@ -19,15 +19,46 @@ RULE = ('two real ActiveObjects, the real fabric; the first has 0-3 timed source
         'events, or at a timer\'s wake instant; distinct = distinct (where stop came from, object state at stop, sources alive) '
         'tuples.')
 ASSUMPTIONS = ['virtual time; horizon 3-6 periods after the stop']
-PROBES = ['stop_with_pending_or_midstep', 'stop_at_timer_wake_instant', 'stop_from_handler', 'external_stop_after_handler_stop']
+PROBES = ['stop_with_pending_or_midstep', 'stop_at_timer_wake_instant', 'stop_from_handler', 'external_stop_after_handler_stop', 'stop_from_another_objects_handler']
 PLAN = {
-  'quick': {'strata': {'external': 2500, 'from-handler': 1000, 'handler-then-external': 600}, 'wall_s': 300, 'chunk': 50, 'min_conclusive': 800},
-  'thorough': {'strata': {'external': 70000, 'from-handler': 30000, 'handler-then-external': 20000}, 'wall_s': 900, 'chunk': 100, 'min_conclusive': 800},
+  'quick': {'strata': {'external': 2500, 'from-handler': 1000, 'handler-then-external': 600, 'from-other-object': 600}, 'wall_s': 300, 'chunk': 50, 'min_conclusive': 800},
+  'thorough': {'strata': {'external': 70000, 'from-handler': 30000, 'handler-then-external': 20000, 'from-other-object': 20000}, 'wall_s': 900, 'chunk': 100, 'min_conclusive': 800},
 }
+
+
+def generate_other(rng):
+  # the stop comes from a handler of another active object (its thread is "another thread" for the stopped one), while
+  # the stopped object is in the middle of a slow step that may go on to arm a source; in half of the runs the two
+  # objects carry the same name
+  objs = aw.default_objects(2)
+  if rng.random() < 0.5:
+    objs[1]['name'] = objs[0]['name']
+  p = rng.choice([0.1, 0.25, 1.0])
+  slow = [{'op': 'sleep', 'd': p * rng.choice([0.5, 1, 3]), 'id': 30, 'max': 2}]
+  if rng.random() < 0.6:
+    slow.append({'op': 'timed', 'sig': 'TH', 'period': p * rng.choice([1, 2]), 'times': rng.choice([0, 0, 6]), 'deferred': rng.choice([True, False]),
+                 'kind': rng.choice(['fifo', 'lifo']), 'id': 31, 'max': 1})
+  objs[0]['react'] = {'SA': slow}
+  objs[1]['react'] = {'SC': [{'op': 'stop_other', 'target': 0, 'id': 32, 'max': 1}]}
+  c0 = [['start', 0], ['start', 1], ['await_idle']]
+  for slot in range(rng.randrange(0, 3)):
+    c0.append(['timed', 0, rng.choice(['fifo', 'lifo']), rng.choice(['TA', 'TB']), p, rng.choice([0, 0, 2]), rng.choice([True, False]), slot])
+  c0.append(['post_fifo', 0, 'SA'])
+  if rng.random() < 0.5:
+    c0.append(['post_fifo', 0, 'SB'])
+  c0.append(['sleep', p * rng.choice([0.1, 0.25, 0.6])])     # the slow step is in progress (or about to begin)
+  c0.append(['post_fifo', 1, 'SC'])
+  c0.append(['sleep', p * rng.choice([4, 6])])
+  c0 += [['post_fifo', 1, 'SB'], ['sleep', p]]
+  total = sum(o[1] for o in c0 if o[0] == 'sleep')
+  return {'objects': objs, 'queue_size': 500, 'clients': [c0], 'stratum': 'from-other-object', 'horizon_s': total + p * rng.randrange(3, 7),
+          'sched': common.draw_sched(rng, grans=('sync', 'line', 'opcode'), weights=(1, 2, 2), expected_steps=2500, victims=['consumer'])}
 
 
 def generate(seed, stratum, tier):
   rng = random.Random(seed)
+  if stratum == 'from-other-object':
+    return generate_other(rng)
   objs = aw.default_objects(2)
   p = rng.choice([0.1, 0.25, 1.0])
   c0 = [['start', 0], ['start', 1], ['subscribe', 1, 'SD', 'fifo'], ['await_idle']]
@@ -118,6 +149,8 @@ def judge(sc, run, sim, res):
   ctl = run.consumer_ctl(0)
   disp0 = [d for d in run.dispatch if d[1] == 0]
   t_of_seq = {rec[0]: sim.history_t[i] for i, rec in enumerate(sim.history)}
+  if st['from'] == 'other-object':
+    sim.probe('stop_from_another_objects_handler')
   if st['from'] != 'handler':
     sim_state = 'external'
     if ctl is not None and ctl.state != kernel.DONE:
